@@ -59,13 +59,76 @@ __attribute__((target("avx2"))) static void scramble256(uint64_t seed)
                            "xmm12", "xmm13", "xmm14", "xmm15");
 }
 
-// seed 0 = all zero; otherwise seeded garbage.  Only registers the ABI leaves undefined at call entry.
+// Dead-stack garbage: whatever ran before a library call (the application, another library call on the same thread) leaves its
+// locals below the stack pointer, and that is what an uninitialised local of the library starts out as.  Every 8-byte word gets the
+// same seeded value, so that what a given slot of a library frame holds does not depend on the absolute stack address (stack ASLR,
+// the call depth of a replay) - frames the library aligns to 32 or 64 bytes would otherwise see a different word in a fresh process
+// and the run would not replay.  Styles by seed: an arbitrary 64-bit value ("wild": tends to crash); small integers in both 32-bit
+// halves, or in one half only (the residue ordinary code leaves: silently changes a result).  Seed 0 leaves zeros (a young thread).
+// The fill itself runs inside GUARDED(), immediately before every library call, so that no harness code (whose locals hold heap
+// and stack addresses, different in every process) runs in between; scramble_regs() only chooses the word.
+__thread uint64_t t_stack_word = 0;
+__attribute__((noinline)) void scribble_stack()
+{
+        uint64_t a[4096]; // 32 KiB: deeper than any frame chain in the library (largest: the hufftable builders, ~20 KiB)
+        void *d = a;
+        size_t n = sizeof a / sizeof a[0];
+        __asm__ volatile("rep stosq" : "+D"(d), "+c"(n) : "a"(t_stack_word) : "memory"); // no vector register is touched
+}
+static uint64_t stack_word(uint64_t seed)
+{
+        uint64_t x = seed * 0x9E3779B97F4A7C15ULL + 1;
+        x ^= x >> 29;
+        x *= 0xBF58476D1CE4E5B9ULL;
+        x ^= x >> 32;
+        if (seed == 0)
+                return 0;
+        switch (seed % 4) {
+        case 1:
+                return ((x >> 61) << 32) | ((x >> 40) & 7);
+        case 2:
+                return (1 + ((x >> 61) & 3)) << 32;
+        case 3:
+                return 1 + ((x >> 40) & 0xff);
+        }
+        return x;
+}
+
+// seed 0 = all zero; otherwise seeded garbage.  Only registers the ABI leaves undefined at call entry, and the dead stack.
 void scramble_regs(uint64_t seed)
 {
         if (!checked)
                 check();
+        t_stack_word = stack_word(seed);
         if (has_avx512)
                 scramble512(seed);
         else if (has_avx)
                 scramble256(seed);
+}
+
+// ---- caller-ABI seam (sim.h)
+__thread IntUpper t_iu;
+__thread bool t_iu_used = false;
+// open finding F15: the assembly entry points that use the full 64-bit register of an int argument (host dispatch, default build)
+bool abi_known_bad(const char *fn, int argidx)
+{
+        static const struct {
+                const char *fn;
+                int arg;
+        } bad[] = { { "gf_vect_dot_prod", 0 }, { "gf_vect_dot_prod", 1 }, { "gf_vect_mad", 0 }, { "gf_vect_mad", 2 }, { "gf_vect_mul", 0 }, { "xor_gen", 0 },
+                    { "xor_gen", 1 },          { "pq_gen", 0 },           { "pq_gen", 1 },      { "xor_check", 0 },   { "pq_check", 0 },    { "crc32_iscsi", 1 }, { "xor_check", 1 }, { "pq_check", 1 } };
+        for (auto &b : bad)
+                if (!strcmp(b.fn, fn) && b.arg == argidx)
+                        return true;
+        return false;
+}
+long iarg(const char *fn, int argidx, int v)
+{
+        long clean = (long) (uint32_t) v;
+        if (!t_iu.dirt || !((t_iu.mask >> argidx) & 1))
+                return clean;
+        if (!t_iu.all && abi_known_bad(fn, argidx))
+                return clean;
+        t_iu_used = true;
+        return clean | (long) ((uint64_t) t_iu.dirt << 32);
 }
